@@ -5,7 +5,7 @@ and multiplicity, then decline or merge; monitor c19 after every transition +
 redirect differential (an event on a child PR or on an integration commit
 must end in the same state as the event on the parent)."""
 from ..sysmc import check
-from ..sysmc.drivers import BYPASS_REVIEW
+from ..sysmc.drivers import BYPASS_REVIEW, conflict_init
 from ..sysmc.world import AUTHOR
 
 PROP = 'C19'
@@ -26,10 +26,26 @@ def spec(name, layout, prs, queue=False, depth=None, int_prs=True,
     return s
 
 
+def conflict_spec(depth, queue=False):
+    """Forward-port conflicts: only the integration branches before the
+    conflicting one exist, the developer creates the missing one by hand."""
+    return spec('c19-%s-D3-conflict' % ('q' if queue else 'noq'), 'D3', [],
+                queue=queue, depth=depth, resolve=True, pushes=0,
+                eval_children=False, eval_int_commits=False,
+                init=conflict_init(),
+                config={'layout': 'D3', 'queue': queue, 'skip_queue': False,
+                        'int_prs': True, 'int_branches': True,
+                        'options': BYPASS_REVIEW + ['bypass_build_status']})
+
+
 def specs(tier):
     two = [(PR1, 'development/4.3'), (PR2, 'development/5.1')]
     if tier == 'quick':
-        return [spec('c19-noq-D3', 'D3', two[:1], depth=5),
+        return [spec('c19-noq-D2-child-declined', 'D2', two[:1], depth=4,
+                     decline_children=True, decline=False, pushes=0,
+                     eval_int_commits=False),
+                conflict_spec(4),
+                spec('c19-noq-D3', 'D3', two[:1], depth=5),
                 spec('c19-noq-D3-noprs', 'D3', two[:1], depth=4,
                      int_prs=False, pushes=0),
                 spec('c19-noq-D3-two', 'D3', two, depth=5,
@@ -46,7 +62,12 @@ def specs(tier):
                                  'bypass_build_status']})]
     opts = [[AUTHOR, '@robot create_pull_requests'],
             [AUTHOR, '@robot create_integration_branches']]
-    return [spec('c19-noq-D3', 'D3', two, depth=6),
+    return [spec('c19-noq-D3-child-declined', 'D3', two, depth=6,
+                 decline_children=True),
+            spec('c19-q-D3-child-declined', 'D3', two[:1], depth=6,
+                 queue=True, decline_children=True),
+            conflict_spec(8), conflict_spec(8, queue=True),
+            spec('c19-noq-D3', 'D3', two, depth=6),
             spec('c19-q-D3', 'D3', two, queue=True, depth=6),
             spec('c19-q-D3-nobuild', 'D3', two[:1], queue=True, depth=7,
                  config={'layout': 'D3', 'queue': True, 'skip_queue': False,
